@@ -8,13 +8,15 @@
       the run visits satisfies PartialProofs.past_hash_inv w.r.t. the block that every parity level holding an encoding encodes at
       its position); it is decidable (phi_check).
    2. every call of repair made by the run (ANY options) never accepts the old block (the literal lifting of the partial theorem).
+   2b. every bad entry with a recorded hash (BLK, REP) that repair accepts holds a block that passes the recorded hash.
    3. the stripe step on ANY stripe and ANY state (plain options, fix): a name that is not the file of the stripe at its disk is
       not touched; a file of the stripe is renamed away at its last block when flagged DAMAGED, or keeps every other block inside
-      its recorded size; the block of the stripe is the block before the step or a rebuilt block x written zero padded -- and then,
-      for a CHG block, the file is flagged DAMAGED or x is not the stale old block.
+      its recorded size; the block of the stripe is the block before the step or a rebuilt block x written zero padded -- and then
+      the file is flagged DAMAGED, or: for a CHG block x is not the stale old block, for a BLK / REP block x hashes to the recorded
+      hash.
    4. the whole run: at the end every mapped block (any state) belongs to a file flagged DAMAGED, or is the block that was on the
       disk before the run (0 when the file was absent), or is a rebuilt block written at its stripe -- which for a CHG block is NOT
-      the stale old block; the exit status fails iff something is counted unrecoverable, and a file flagged DAMAGED is always
+      the stale old block and for a BLK / REP block hashes to the recorded hash; the exit status fails iff something is counted unrecoverable, and a file flagged DAMAGED is always
       counted (failing exit status).  4b: under PastHashInvAll, "not the block any parity level encoded at that position".
       4c: exit status 0 and PastHashInvAll: every CHG block is the block of the disk or a rebuilt block that is not the old one.
 
@@ -23,8 +25,12 @@
       asked of the synced stripes only: synced_part, collision_free_synced).
 
    WHAT IS MISSING for the full statement (hence `_partial`): (i) at BLK positions of stripes that THEMSELVES hold pending changes
-   nothing says the rebuilt block is the recorded one (that needs collision freedom w.r.t. the vector the stale parity encodes and
-   an analysis of both strategies of repair; for the synced stripes it is statement 5, for fully synced arrays C05_fix_run_sound); (ii) the link between the
+   a block the run wrote is shown to PASS THE RECORDED HASH (statement 4), not to BE the recorded block: that last step is
+   collision freedom of the hash on that one block, which is left to the reader (for the synced stripes statement 5 and for fully
+   synced arrays C05_fix_run_sound state it with the explicit collision-freedom hypotheses); a BLK block the run did NOT write
+   (alternative 2 of statement 4) is the block that was on the disk, damaged or not: in a pending stripe check/fix flag the file
+   DAMAGED only when repair fails or marks the entry, an unreadable or hash-failing block is a bad entry and is never left as is
+   silently -- but that alternative 2 implies "passed its hash test" is not stated; (ii) the link between the
    status:recovered tag and the flags is not stated: "reported recovered" is rendered as "not flagged DAMAGED" (4, 4b) or
    "exit status 0" (4c); (iii) "untouched when intact" is stated for blocks only (alternative 2 of statement 4 says which blocks
    were not rewritten, not that an intact file takes that alternative), not for sizes and time-stamps.
@@ -60,6 +66,19 @@ Theorem C05_pending_run_repair_calls_never_accept_old :
 Proof. exact run_repair_calls_never_accept_old. Qed.
 Print Assumptions C05_pending_run_repair_calls_never_accept_old.
 
+(* 2b. ... and every bad entry WITH a recorded hash (BLK, REP) that repair accepts (answer ROk, entry not marked out-of-date) holds
+       a block that hashes to the recorded hash: blocks fetched from other files, blocks rebuilt by strategy 1 (parity updated) and
+       by strategy 2 (parity old) alike.  Any damage, any parity, no collision hypothesis. *)
+Theorem C05_pending_repair_ok_hash_verified :
+  forall (hashf : bid -> N -> hval) (padz : bid -> N -> bool) (bs : N) (nlev pos : nat) (nosearch : bool) (fs0 : list (option fsdisk))
+         (failed : list fent) (rec : list penc) (buf : list bid) (jn : N) (failed' : list fent) (buf' : list bid) (jn' : N) (tags : list (N * list N)),
+    NoDup (map fe_idx failed) -> (forall e, In e failed -> fe_idx e < length buf) ->
+    repair hashf padz bs nlev false pos nosearch fs0 failed rec buf jn = (ROk, failed', buf', jn', tags) ->
+    forall e', In e' failed' -> fe_bad e' = true -> fe_ood e' = false -> fe_updated_hash e' = true ->
+      hval_eqb (hashf (vnth buf' (fe_idx e')) (fe_len bs e')) (fe_hash e') = true.
+Proof. exact repair_ok_hash_verified. Qed.
+Print Assumptions C05_pending_repair_ok_hash_verified.
+
 (* 3. the stripe step, any stripe, any state *)
 Theorem C05_pending_fix_step :
   forall (hashf : bid -> N -> hval) (padz : bid -> N -> bool) (truncf : bid -> N -> bid) (bs : N) (nlev : nat)
@@ -75,7 +94,9 @@ Theorem C05_pending_fix_step :
                     fblk (r_fs s') j (cf_name f) idx = fblk (r_fs s) j (cf_name f) idx
                     \/ exists x, fblk (r_fs s') j (cf_name f) idx = wbv padz truncf bs f idx x
                                  /\ (fb_state b = SChg ->
-                                     fl_damaged (get_fl (r_flags s') (j, cf_name f)) = true \/ NotOld hashf padz bs j f idx b x))))
+                                     fl_damaged (get_fl (r_flags s') (j, cf_name f)) = true \/ NotOld hashf padz bs j f idx b x)
+                                 /\ (fb_state b <> SChg ->
+                                     fl_damaged (get_fl (r_flags s') (j, cf_name f)) = true \/ hash_ok hashf bs f idx b x = true))))
     /\ (r_unrec s <= r_unrec s' /\ (r_unrec s' = r_unrec s -> forall k, fl_damaged (get_fl (r_flags s') k) = fl_damaged (get_fl (r_flags s) k))).
 Proof. exact fix_step_pending. Qed.
 Print Assumptions C05_pending_fix_step.
@@ -92,7 +113,8 @@ Theorem C05_pending_fix_run_chg :
     /\ forall p j f i b, slot_of c p j = SFile f i b ->
          fl_damaged (get_fl (r_flags (out_st out)) (j, cf_name f)) = true
          \/ fblk (r_fs (out_st out)) j (cf_name f) i = fblk fs j (cf_name f) i
-         \/ exists x, fblk (r_fs (out_st out)) j (cf_name f) i = wbv padz truncf bs f i x /\ (fb_state b = SChg -> NotOld hashf padz bs j f i b x).
+         \/ exists x, fblk (r_fs (out_st out)) j (cf_name f) i = wbv padz truncf bs f i x /\ (fb_state b = SChg -> NotOld hashf padz bs j f i b x)
+                      /\ (fb_state b <> SChg -> hash_ok hashf bs f i b x = true).
 Proof. exact run_fix_chg_pending. Qed.
 Print Assumptions C05_pending_fix_run_chg.
 
